@@ -9,6 +9,7 @@
 //	harness-inflight one   '<json case>'         run a single history verbosely (replay)
 //	harness-inflight perm  quick|thorough        C10: payload-tagged responses in all permutations
 //	harness-inflight sock  quick|thorough        C16: scripted socket sessions, goroutine accounting; more connections than MaxConnections
+//	harness-inflight race  quick|thorough        C16: Close / read timeout concurrent with traffic, each family in a child process
 //	harness-inflight wire  quick|thorough        C10: real connections, v3..v5/DSE, responses in every order, header-only and coalesced frames
 //	harness-inflight stress quick|thorough       concurrent senders + responder on the real handler
 package main
@@ -1550,6 +1551,12 @@ func main() {
 		processDeadline(subDeadline(tier)) // every wait inside is bounded; this is the last resort
 		sockSessions(tier)
 		acceptSessions(tier)
+	case "race":
+		processDeadline(subDeadline(tier))
+		runRaces(tier)
+	case "racechild":
+		ms, _ := strconv.ParseInt(os.Args[3], 10, 64)
+		raceChild(os.Args[2], ms)
 	case "wire":
 		processDeadline(subDeadline(tier))
 		wireSessions(tier)
